@@ -60,7 +60,8 @@ def main():
         "not_applicable": na,
         "notes": "All checks: exit 0 = held on everything explored (KNOWN-FINDING lines for listed open findings), exit 1 + "
                  "VIOLATION line = violation with minimised replay file confirmed in a fresh interpreter, exit 2 = harness "
-                 "error (never a verdict). VERIF_SEED selects the seed block. See DESIGN.md.",
+                 "error (never a verdict; single runs in which a broken library also broke the harness are listed as HARNESS-ERROR "
+                 "lines next to confirmed violations without changing exit 1). VERIF_SEED selects the seed block. See DESIGN.md.",
     }
     with open(os.path.join(HERE, "MANIFEST.json"), "w") as fp:
         json.dump(doc, fp, indent=1)
